@@ -93,6 +93,14 @@ def lossy_ops(t: T) -> List[str]:
             n = tm.callee_name(x) or ""
             if any(n == l or (l.startswith(".") and n == l) for l in LOSSY):
                 out.append(n)
+            if n in ("pandas.read_csv", "pandas.read_table",
+                     "pandas.read_fwf"):
+                fp = dict(x.args[2]).get("float_precision")
+                if not (fp is not None and tm.is_const(fp, "round_trip")):
+                    out.append(f"{n} without float_precision='round_trip' "
+                               f"(pandas' default float parser is not "
+                               f"correctly rounded: 17-digit values come "
+                               f"back 1 ulp off)")
             if n == ".astype" and x.args[1]:
                 a = x.args[1][0]
                 nm = a.args[0] if a.op == "global" else (
@@ -469,7 +477,7 @@ def check(ctx):
            "back into positions / quaternions / timestamps" if okr else
            f"df_to_trajectory rebuilds {fmt(rf.ret)}",
            key="C06.5:pandas:from_df")
-    _bag(ctx, prog)
+    ctx.section(_bag, ctx, prog)
 
 
 def _bag(ctx, prog):
